@@ -83,4 +83,15 @@ Entries(c) ==
     \o Opt(c.data_store_size, LAMBDA n : <<E(STG, "data_store_size", <<Dec(n)>>, "keyed")>>)
     \o Opt(c.gate, LAMBDA f : GateEntries(f))
     \o Opt(c.data_required, LAMBDA n : IF n = 0 THEN <<>> ELSE <<E(<<"http-beacon">>, "data_required", <<True>>, "keyed")>>)
+    \o Opt(c.tcp_frame, LAMBDA s : IF s = <<>> THEN <<>> ELSE <<E(<<>>, "tcp_frame_header", <<s>>, "keyed")>>)
+    \o Opt(c.smb_frame, LAMBDA s : IF s = <<>> THEN <<>> ELSE <<E(<<>>, "smb_frame_header", <<s>>, "keyed")>>)
+    \o Opt(c.dns_get_aaaa, LAMBDA s : <<E(DNS, "get_AAAA", <<s>>, "keyed")>>)
+    \o Opt(c.dns_put_metadata, LAMBDA s : <<E(DNS, "put_metadata", <<s>>, "keyed")>>)
+    \o Opt(c.bof_reuse, LAMBDA n : IF n = 0 THEN <<>> ELSE <<E(PI, "bof_reuse_memory", <<True>>, "keyed")>>)
+    \o Opt(c.bof_allocator, LAMBDA n : <<E(PI, "bof_allocator", <<CASE n = 0 -> <<86, 105, 114, 116, 117, 97, 108, 65, 108, 108, 111, 99>>
+                                                                      [] n = 1 -> <<77, 97, 112, 86, 105, 101, 119, 79, 102, 70, 105, 108, 101>>
+                                                                      [] OTHER -> <<72, 101, 97, 112, 65, 108, 108, 111, 99>>>>, "keyed")>>)
+    \* c.passive: settings the generator reads and deliberately does not turn into statements (max GET size, deprecated spawnto,
+    \* chunked posts, caution flag, host header, cookie / proxy behaviour, exit function, kill date, inject stub, DNS resolver):
+    \* no entries; their presence must not disturb anything else
 =============================================================================
